@@ -522,6 +522,8 @@ func checkC13(w *World, r *Report) {
 	nilBranchRule(w, r, e, "C13.nil-branch")
 	countArithRule(w, r, e, "C13.count-arith")
 	siblingDomainRule(w, r, "C13.sibling-domain")
+	seqErrorUsedRule(w, r, e, "C13.seq-errors")
+	keyContentRule(w, r, "C13.key-content")
 	loopErrorRule(w, r, "C13.loop-errors", func(fn *ssa.Function) bool {
 		return strings.HasPrefix(fnPkgPath(fn), modPath+"/lib/") || fnPkgPath(fn) == modPath+"/types"
 	})
@@ -1049,6 +1051,48 @@ func checkC17(w *World, r *Report) {
 							}
 						}
 					}
+					// the scanner's position is read when the token is built - after the Scan that produced it -
+					// not carried over from before that Scan (which has skipped the comments in front of the token)
+					if strings.HasSuffix(dst, "Row") || strings.HasSuffix(dst, "Col") {
+						carried := false
+						seenC := map[ssa.Value]bool{}
+						var walkC func(v ssa.Value, depth int)
+						walkC = func(v ssa.Value, depth int) {
+							if v == nil || seenC[v] || depth > 6 {
+								return
+							}
+							seenC[v] = true
+							switch x := v.(type) {
+							case *ssa.Phi:
+								if len(naturalLoopsWithHeader(tf, x.Block())) > 0 {
+									carried = true
+								}
+								for _, ed := range x.Edges {
+									walkC(ed, depth+1)
+								}
+							case *ssa.Field:
+								walkC(x.X, depth+1)
+							case *ssa.BinOp:
+								walkC(x.X, depth+1)
+								walkC(x.Y, depth+1)
+							case *ssa.Convert:
+								walkC(x.X, depth+1)
+							case *ssa.UnOp:
+								if fa2, isFA := x.X.(*ssa.FieldAddr); !isFA {
+									walkC(x.X, depth+1)
+								} else if al, isLocal := fa2.X.(*ssa.Alloc); isLocal {
+									// a struct kept in a local (pos := s.Pos()): assigned where it is read, once
+									for _, ref := range *al.Referrers() {
+										if s2, ok := ref.(*ssa.Store); ok && s2.Addr == ssa.Value(al) && scanBetween(s2, x) {
+											carried = true
+										}
+									}
+								}
+							}
+						}
+						walkC(st.Val, 0)
+						r.check(!carried, "C17.provenance", tf, "token "+dst+" read at the token", st.Pos(), "the scanner's position after the Scan that produced the token", "the value of "+dst+" ("+d+") is carried round the scanning loop: it was read before the Scan that produced this token, which skips the comments in front of it, so a form that follows comment lines begins - for the positions of errors - on the first of those lines")
+					}
 					switch {
 					case strings.HasSuffix(dst, "Row"):
 						nt++
@@ -1229,6 +1273,7 @@ func checkC17(w *World, r *Report) {
 	// the rows the scanner counts are the rows of the text the caller passed
 	textIntactRule(w, r, "C17.text-intact")
 	moduleAsGivenRule(w, r, e, "C17.module")
+	fabricatedPositionRule(w, r, "C17.no-made-up-position")
 	if rf := w.Fn("reader", "read_form"); rf != nil {
 		nm, okAll := 0, true
 		for _, fn := range w.pkgFuncs("reader") {
@@ -1764,6 +1809,8 @@ func checkC19(w *World, r *Report) {
 	positionBlindRule(w, r, "C19.position-blind")
 	slurpVerbatimRule(w, r, "C19.slurp")
 	r.add("C19.nil-cursor", nil, "nil guards of optional positions", token.NoPos, "info", "decided by the may-panic audits of C04 and C05 (optional pointer fields are may-nil there)")
+	printerRules(w, r, "C19.one-escaper")
+	goQuotedSourceRule(w, r, "C19.go-quoted")
 	r.rule("C19.print-reread", "the re-read-from-printed-form route: the printer's escape table and the reader's un-escape table are inverse (shared with C06.escape)")
 	escapeAgreement(w, r, e, "C19.print-reread")
 	r.rule("C19.whitespace", "the tokenizer leaves the scanner's white-space set alone, or sets one that contains space, tab, LF and CR (text with CRLF line endings means the same)")
@@ -4577,7 +4624,7 @@ func rangeErrorRule(w *World, r *Report, e *Engine, rule string) {
 // comparison of two maps at every key: a counted loop over a sequence runs i = 0 .. len-1 (or len-1 .. 0) with
 // step one, and nothing inside a comparison loop skips an element on the strength of the two values alone.
 func allElementsRule(w *World, r *Report, e *Engine, rule string) {
-	r.rule(rule, "in Equal_Q and the functions it is built from, a counted loop that indexes the operands visits every index (from 0 while i < len, or from len-1 while i >= 0, step 1), and within a loop that compares elements or map values the recursive comparison is reached for every element: no branch that depends on the two values themselves continues the loop without it")
+	r.rule(rule, "in Equal_Q and the functions it is built from, a counted loop that indexes the operands visits every index (from 0 while i < len, or from len-1 while i >= 0, step 1), and within a loop that compares elements or map values the recursive comparison is reached for every element: no branch that depends on the two values themselves continues the loop without it; the outcome of each comparison decides a branch inside the loop (a difference ends it), it is not merely carried to the next lap")
 	eq := w.Fn("types", "Equal_Q")
 	if eq == nil {
 		r.undecided(rule, nil, "types.Equal_Q", token.NoPos, "function no longer resolves")
@@ -4688,6 +4735,34 @@ func allElementsRule(w *World, r *Report, e *Engine, rule string) {
 					}
 				}
 			}
+			// (3) a comparison that fails ends the loop: its result is a branch condition inside the loop (or is
+			// and-ed into what the loop carries), never just assigned to a variable the next lap overwrites
+			decides := false
+			var use func(v ssa.Value, depth int)
+			use = func(v ssa.Value, depth int) {
+				if v == nil || v.Referrers() == nil || depth > 3 {
+					return
+				}
+				for _, ref := range *v.Referrers() {
+					switch u := ref.(type) {
+					case *ssa.If:
+						if blocks[u.Block()] {
+							decides = true
+						}
+					case *ssa.UnOp:
+						use(u, depth+1)
+					case *ssa.BinOp:
+						use(u, depth+1) // and-ed / compared: the combination is followed
+					case *ssa.Phi:
+						// a boolean merge inside the loop body (&&, ||) is followed; the loop-carried variable is not
+						if u.Block() != l.header && blocks[u.Block()] {
+							use(u, depth+1)
+						}
+					}
+				}
+			}
+			use(rec, 0)
+			r.check(decides, rule, f, "outcome of the element comparison", rec.Pos(), "decides a branch inside the loop", "the result of comparing one pair of elements is only stored for later (the next pair's result replaces it): sequences that end in equal elements compare equal whatever comes before")
 		}
 	}
 	r.floor(rule, "loops comparing elements in Equal_Q", n, 2)
@@ -5306,4 +5381,176 @@ func moduleAsGivenRule(w *World, r *Report, e *Engine, rule string) {
 		}
 	}
 	r.floor(rule, "cursor constructors that take a module name", n, 2)
+}
+
+// seqErrorUsedRule: "is this argument a sequence" is answered by the error of the sequence accessor. A builtin
+// that calls the accessor on an argument whose kind it has not established, and drops that error, treats every
+// other kind of value as the empty sequence: a wrong value where the definition prescribes an error.
+func seqErrorUsedRule(w *World, r *Report, e *Engine, rule string) {
+	r.rule(rule, "in the collection builtins (registered functions of lib/core and the functions they are built from) every call of the sequence accessor on a value not already known to be a list or a vector binds the accessor's error and tests it: no builtin answers for a non-sequence as if it were empty")
+	gs := w.Fn("types", "GetSlice")
+	if gs == nil {
+		r.undecided(rule, nil, "types.GetSlice", token.NoPos, "function no longer resolves")
+		return
+	}
+	tsc := w.ByPath[modPath+"/types"].Types.Scope()
+	listT, vecT := tsc.Lookup("List").Type(), tsc.Lookup("Vector").Type()
+	seen := map[*ssa.Function]bool{}
+	n := 0
+	for _, root := range w.registeredFuncs() {
+		if !strings.HasPrefix(fnPkgPath(root), modPath+"/lib/core") {
+			continue
+		}
+		for _, fn := range w.withPkgHelpers(root) {
+			if seen[fn] {
+				continue
+			}
+			seen[fn] = true
+			for _, c := range staticCallsTo(fn, gs) {
+				n++
+				if okL, _ := e.hasType(c.Call.Args[0], listT, c.Block()); okL {
+					continue
+				}
+				if okV, _ := e.hasType(c.Call.Args[0], vecT, c.Block()); okV {
+					continue
+				}
+				errEx := extractOf(c, 1)
+				tested := false
+				if errEx != nil {
+					for _, ref := range *errEx.Referrers() {
+						switch u := ref.(type) {
+						case *ssa.BinOp:
+							tested = true
+						case *ssa.Return, *ssa.Store, *ssa.Phi:
+							tested = true // handed on or kept: somebody looks at it
+							_ = u
+						}
+					}
+				}
+				// `return GetSlice(x)`: the results go to the caller as they are
+				for _, ref := range *c.Referrers() {
+					if _, isRet := ref.(*ssa.Return); isRet {
+						tested = true
+					}
+				}
+				r.check(tested, rule, fn, "error of the sequence accessor", c.Pos(), "bound and tested", "the accessor's error is dropped: for an argument that is neither a list nor a vector ("+describeVal(e, c.Call.Args[0], 0)+") the builtin goes on with no elements and answers as for the empty sequence, where it has to fail")
+			}
+		}
+	}
+	r.floor(rule, "calls of the sequence accessor in the collection builtins", n, 4)
+}
+
+// fabricatedPositionRule: a form made while a program runs (by a builtin, by quasiquote) has no position, and
+// an error raised in it then carries none. It must not be given a made-up one: a Cursor that is non-nil but
+// says nothing (a Position literal without rows or module) is taken for a real position by the error
+// constructors, and the error is reported at line 0 of no module instead of staying unpositioned.
+func fabricatedPositionRule(w *World, r *Report, rule string) {
+	r.rule(rule, "no function reachable from evaluation (the evaluator, Apply, the registered builtins) stores into the Cursor of a form a Position it has just allocated and left empty: values built at run time either carry a real position or none")
+	reach := w.reachableFrom(append(evalEntries(w), w.registeredFuncs()...))
+	n := 0
+	for fn := range reach {
+		if isTestFunc(w, fn) || strings.HasSuffix(fnPkgPath(fn), "/reader") {
+			continue
+		}
+		for _, b := range fn.Blocks {
+			for _, in := range b.Instrs {
+				st, ok := in.(*ssa.Store)
+				if !ok {
+					continue
+				}
+				fa, ok := st.Addr.(*ssa.FieldAddr)
+				if !ok || fieldName(fa.X.Type(), fa.Field) != "Cursor" {
+					continue
+				}
+				n++
+				al, ok := st.Val.(*ssa.Alloc)
+				if !ok {
+					continue
+				}
+				if _, name, ok := w.namedStruct(al.Type()); !ok || name != "Position" {
+					continue
+				}
+				filled := false
+				for _, ref := range *al.Referrers() {
+					if fa2, ok := ref.(*ssa.FieldAddr); ok {
+						for _, u := range *fa2.Referrers() {
+							if s2, ok := u.(*ssa.Store); ok && s2.Addr == ssa.Value(fa2) {
+								filled = true
+							}
+						}
+					}
+					if s2, ok := ref.(*ssa.Store); ok && s2.Addr == ssa.Value(al) {
+						filled = true
+					}
+				}
+				r.check(filled, rule, fn, "position given to a value built at run time", st.Pos(), "a position with content, or none", "an empty Position is allocated and stored as the Cursor of a new value: errors raised in forms built from it (the calls a macro generates) are positioned at row 0 of no module, where without it they would be positioned at the enclosing form or not at all")
+			}
+		}
+	}
+	r.add(rule, nil, "assignments to Cursor fields reachable from evaluation", token.NoPos, "ok", fmt.Sprintf("%d examined", n))
+	r.floor(rule, "assignments to Cursor fields reachable from evaluation", n, 3)
+}
+
+// naturalLoopsWithHeader: the natural loops of fn whose header is b.
+func naturalLoopsWithHeader(fn *ssa.Function, b *ssa.BasicBlock) []natLoop {
+	var out []natLoop
+	for _, l := range naturalLoops(fn) {
+		if l.header == b {
+			out = append(out, l)
+		}
+	}
+	return out
+}
+
+// scanBetween: some path from the store to the load passes a call of the scanner's Scan method (the value
+// stored was read before that Scan, the load uses it after).
+func scanBetween(st *ssa.Store, ld ssa.Instruction) bool {
+	isScan := func(in ssa.Instruction) bool {
+		c, ok := in.(*ssa.Call)
+		return ok && c.Call.StaticCallee() != nil && c.Call.StaticCallee().Name() == "Scan" && c.Call.StaticCallee().Signature.Recv() != nil
+	}
+	// rest of the store's block
+	after := false
+	for _, in := range st.Block().Instrs {
+		if in == ssa.Instruction(st) {
+			after = true
+			continue
+		}
+		if !after {
+			continue
+		}
+		if in == ld {
+			return false
+		}
+		if isScan(in) {
+			// a Scan follows the store in its own block: does the load lie beyond it?
+			return blockReaches(st.Block(), ld.Block(), false) || st.Block() == ld.Block()
+		}
+	}
+	// blocks reachable from the store's block without passing a Scan: if the load is among them it is reached
+	// Scan-free; otherwise every way to it passes a Scan
+	seen := map[*ssa.BasicBlock]bool{}
+	stack := append([]*ssa.BasicBlock{}, st.Block().Succs...)
+	for len(stack) > 0 {
+		b := stack[len(stack)-1]
+		stack = stack[:len(stack)-1]
+		if seen[b] {
+			continue
+		}
+		seen[b] = true
+		blocked := false
+		for _, in := range b.Instrs {
+			if in == ld {
+				return false
+			}
+			if isScan(in) {
+				blocked = true
+				break
+			}
+		}
+		if !blocked {
+			stack = append(stack, b.Succs...)
+		}
+	}
+	return true
 }
